@@ -1,7 +1,7 @@
 SPECIFICATION Spec
 CONSTANTS
   MaxSpikes = 4
-  MaxT = 2
+  MaxT = 3
   CluIds = {0, 4}
   KeptSet = {1, 2, 3}
   NReqSet <- NReqDef
